@@ -12,34 +12,48 @@ RULE = ("synthetic Evatra states (3-20 layers, six moisture regimes incl. drynes
         "missing radiation with sunshine hours x crops with LUKRIT = 0 on a top soil above its pore volume (F27), plus Evatra replayed on the pre-state of sampled days of traced real "
         "runs (ETpot=1..5) and of a potato run on a soil with field capacity above pore volume; a case is non-trivial when distinct and the potential ET is positive")
 TRUSTED = ["binary64 semantics of Go on amd64 (no fused multiply-add) = Coq primitive floats",
-           "ET0 formulas (Haude, Turc-Wendling, Penman-Monteith, Priestley-Taylor, file), stomat and the day-length "
-           "routine are oracles: the model starts from the potential ET after the cap/floor step, obtained exactly by "
-           "replaying hermes.Evatra on a copy of the state with VERDUNST = 0; exp(-0.5*LAI) and the exp-weights of the "
-           "evaporation profile are computed by the harness with the source expressions",
-           "the harness mirrors the crop-branch condition of water.go:132/523 and the method-5 product ETNULL*FKC*0.1",
+           "math.Exp/Log/Sin/Cos/Tan/Asin/Acos/Pow are oracles: Et0Model takes them as a record of functions; at binary64 the "
+           "record is the table of the values Go computed, keyed by kind and argument bits (a key the model asks for that is not "
+           "in the table is reported); over R each theorem names the facts it uses (exp > 0, pow > 0) and real_orc_ok / "
+           "C08_ext_nonneg discharge them for the true functions",
+           "harness/c08_et0.go is a verbatim SHADOW of water.go:36-61,132-468, stomat and solar.go with the math calls routed "
+           "through a recorder; it supplies the oracle table and the potential ET before the cap (a local of Evatra) and is "
+           "compared with the real hermes.Evatra on every case (capped value, ET0, SATDEF, RSTOM, WIND, SUND, FKC, RADSUM)",
+           "the day's capped potential ET is obtained exactly by replaying hermes.Evatra on a copy of the state with VERDUNST = 0; "
+           "exp(-0.5*LAI) and the exp-weights of the evaporation profile are computed by the harness with the source expressions",
+           "the harness mirrors the crop-branch condition of water.go:132/523; Go constant expressions (2*math.Pi/365, ...) are "
+           "literals of C08Corr.constsF compared with the values the Go compiler produced on every run",
            "R->F gap: theorems are about exact real arithmetic; at binary64 the oracle allows 1e-12 on ETA >= 0, "
            "ETREL >= 0 and ETA + sum TP <= VERDU, and 1e-9 on TRREL <= 1 (TRREL = TPAKT/TRAMAX is not clamped by the "
            "code: 1.0000000000000002 observed; REDEV is -0x1p-57 at PROZ = 0, proved: redev_binary64_at_0, so ETA down "
            "to -4.5e-18 and ETREL down to -6.9e-18 occur when the top layer sits at its dryness limit without rain)"]
 ASSUMPTIONS = ["DT = 1, DZ = 10, N >= 3 and WURZ <= N (checked on every case; other cases are reported, not modelled)",
-               "theorem hypotheses: W[0] > WMIN[0]/3, WUDICH >= 0 (crop.go:640 takes an absolute value), 0 <= LUMDAY (observed on every traced day)",
+               "theorem hypotheses (structure): W[0] > WMIN[0]/3, WUDICH >= 0 (crop.go:640 takes an absolute value), 0 <= LUMDAY "
+               "(observed on every traced day)",
+               "theorem hypotheses (potential ET, et0_domain): crop coefficients FKC, FKB >= 0; Haude: saturation deficit and monthly "
+               "factors >= 0; file method: ETNULL >= 0; Turc-Wendling: TEMP >= -22 degC, KCOA >= 0, sunshine hours >= 0, |LAT| < 90; "
+               "divisor lemmas: TEMP <> -237.3 degC, altitude < 45077 m; with CO2 response (CTRANS) RSTOM >= 0 is a hypothesis of "
+               "C08_pm_divisor_pos (stomat's result is tied bit-exactly but its sign is not proved)",
                "measurement-overwrite days are not excluded: Evatra runs before the overwrite"]
-LEVEL_TEXT = ("Coq proof over the reals, for every layer count and every state in the stated class, of: cap/floor of the "
-              "potential ET (also exact at binary64), range of PROZ and REDEV (four segments), initial uptake distribution "
-              "<= TRAMAX*LURED <= TRAMAX, the downward redistribution loop never increases the summed uptake and keeps "
-              "every layer non-negative (induction over layers), ETA + TPAKT <= VERDU, uptake zero outside "
-              "min(root depth, groundwater), the Water clamp bounds the uptake by the plant-available water, and the "
-              "ranges of ETREL/TRREL; the model is the same Gallina definition executed at binary64 and compared bit for "
-              "bit with hermes.Evatra (all five ET methods) every run; the property itself is evaluated on the real code "
-              "on every synthetic case and every traced day.")
-LEVEL_NOTE = ("Partial: the ET0 formulas, stomat and the Haude factors are oracles (inputs of the model). Reals axioms of "
-              "the standard library; primitive floats; no rounding-error bound between the real and the binary64 "
-              "semantics (oracle tolerances above).")
-TECHNIQUE = ("Coq proof (per-phase lemmas, induction over the layer list with a weight-sum invariant, lra/nra) + bit-exact "
-             "kernel correspondence + property oracle on synthetic and traced states")
+LEVEL_TEXT = ("Coq proof over the reals, for every layer count and every state in the stated class, of: the potential ET of all "
+              "five ETpot methods (Haude, Turc-Wendling, Penman-Monteith with stomatal CO2 response, Priestley-Taylor, reference ET "
+              "from the weather file) is non-negative in the documented physical domain already before the floor (witness at "
+              "-30 degC for Turc-Wendling outside it: F8), extraterrestrial radiation >= 0 for the true trigonometric functions, "
+              "positive divisors of the combination formulas, cap/floor of the potential ET (also exact at binary64), range of "
+              "PROZ and REDEV, initial uptake distribution <= TRAMAX*LURED <= TRAMAX, the downward redistribution loop never "
+              "increases the summed uptake and keeps every layer non-negative (induction over layers), ETA + TPAKT <= VERDU, "
+              "uptake zero outside min(root depth, groundwater), the Water clamp bounds the uptake by the plant-available water, "
+              "ranges of ETREL/TRREL; both models are the Gallina definitions executed at binary64 and compared bit for bit with "
+              "hermes.Evatra every run; the property itself is evaluated on the real code on every synthetic case and every "
+              "traced day, the potential ET for all five methods on every traced day.")
+LEVEL_NOTE = ("Transcendental functions are oracle inputs (table of Go's values at the argument bits the model computes). Not proved: "
+              "sign and finiteness of stomat's RSTOM, day length facts other than EXT >= 0. Reals axioms of the standard library; "
+              "primitive floats; no rounding-error bound between the real and the binary64 semantics (oracle tolerances above).")
+TECHNIQUE = ("Coq proof (per-phase lemmas, induction over the layer list with a weight-sum invariant, monotonicity by the derivative "
+             "for EXT >= 0, lra/nra) + bit-exact kernel correspondence with oracle tables + property oracle on synthetic and traced states")
 
 GROUPS = ["NFK", "EVA/ETA/FLUSS0", "EV", "LUMDAY/LURED", "TP", "GWAUF", "ETREL", "TRREL", "WURZ"]
-HDR = ["From Coq Require Import ZArith List Bool Floats.", "From Hermes Require Import Num WaterModel EvatraModel C01Corr C08Corr.",
+HDR = ["From Coq Require Import ZArith List Bool Floats.", "From Hermes Require Import Num WaterModel EvatraModel Et0Model C01Corr C08Corr.",
        "Import ListNotations.", "Open Scope float_scope."]
 
 
@@ -60,6 +74,27 @@ def record(i, o):
                fls(o["tp"]), fl(o["gwauf"]), fl(o["etrel"]), fl(o["trrel"]), max(o["wurz"], 0)))
 
 
+ET0_GROUPS = ["pre-cap potential ET", "ET0", "SATDEF", "RSTOM", "WIND", "SUND", "FKC", "RADSUM", "capped potential ET",
+              "oracle argument not in the table"]
+
+
+def et0_record(c):
+    i, o = c["in"], c["out"]
+    tab = "[" + "; ".join("(%d%%nat, %s, %s, %s)" % (k, fl(a), fl(bb), fl(v)) for k, a, bb, v in c["tab"]) + "]"
+    return ("({| ti_crop := %s; ti_meth := %s; ti_tag := %s; ti_lat := %s; ti_alti := %s; ti_kcoa := %s; ti_fkc := %s; ti_fkb := %s; "
+            "ti_fkf := %s; ti_fku := %s; ti_verd := %s; ti_temp := %s; ti_tmin := %s; ti_tmax := %s; ti_rad := %s; ti_sund := %s; "
+            "ti_rh := %s; ti_wind := %s; ti_windhi := %s; ti_etnull := %s; ti_ctrans := %s; ti_co2meth := %s; ti_co2konz := %s; "
+            "ti_mintmp := %s; ti_alph := %s; ti_satbeta := %s; ti_radsum := %s; ti_rstom := %s; ti_et0 := %s; ti_satdef := %s |}, "
+            "%s, {| tb_precap := %s; tb_et0 := %s; tb_satdef := %s; tb_rstom := %s; tb_wind := %s; tb_sund := %s; tb_fkc := %s; "
+            "tb_radsum := %s; tb_capped := %s |})"
+            % (b(i["crop"]), _z(i["meth"]), _z(i["day"]), fl(i["lat"]), fl(i["alti"]), fl(i["kcoa"]), fl(i["fkc"]), fl(i["fkb"]),
+               fls(i["fkf"]), fls(i["fku"]), fl(i["verd"]), fl(i["temp"]), fl(i["tmin"]), fl(i["tmax"]), fl(i["rad"]), fl(i["sund"]),
+               fl(i["rh"]), fl(i["wind"]), fl(i["windhi"]), fl(i["etnull"]), b(i["ctrans"]), _z(i["co2meth"]), fl(i["co2konz"]),
+               fl(i["mintmp"]), fl(i["alph"]), fl(i["satbeta"]), fl(i["radsum"]), fl(i["rstom"]), fl(i["et0"]), fl(i["satdef"]),
+               tab, fl(o["precap"]), fl(o["et0"]), fl(o["satdef"]), fl(o["rstom"]), fl(o["wind"]), fl(o["sund"]), fl(o["fkc"]),
+               fl(o["radsum"]), fl(o["capped"])))
+
+
 def _parse(o):
     """-> (ok, pairs): any printed M other than [] must parse into pairs"""
     m = re.search(r"M\s*=\s*(.*?)\s*:\s*list \(nat \* nat\)", o, re.S)
@@ -72,9 +107,17 @@ def _parse(o):
     return True, pairs
 
 
-def eval_cases(ctx, corr, cases, caps, shard=40):
+def eval_cases(ctx, corr, cases, caps, et0=(), consts=None, shard=90):
     recs = [record(c["in"], c["out"]) for c in cases]
     items = []
+    erecs = [et0_record(c) for c in et0]
+    for k in range(0, len(erecs), shard):
+        body = HDR + ["Definition cases : list (et0_in (T:=float) * otab * et0_obs) := [\n%s\n]." % ";\n".join(erecs[k:k + shard]),
+                      "Definition M := Eval vm_compute in mismatches et0_check %d%%nat cases." % k, "Print M."]
+        items.append(("Cases_et0_%d" % (k // shard), "\n".join(body) + "\n"))
+    if consts is not None:
+        body = HDR + ["Definition M := Eval vm_compute in mismatches consts_check 0%%nat [%s]." % fls(consts), "Print M."]
+        items.append(("Cases_et0consts", "\n".join(body) + "\n"))
     for k in range(0, len(recs), shard):
         body = HDR + ["Definition cases : list (evatra_in (T:=float) * evatra_obs) := [\n%s\n]." % ";\n".join(recs[k:k + shard]),
                       "Definition M := Eval vm_compute in mismatches evatra_check %d%%nat cases." % k, "Print M."]
@@ -92,24 +135,52 @@ def eval_cases(ctx, corr, cases, caps, shard=40):
         for idx, mask in pairs:
             if nm == "Cases_cap":
                 corr.mismatches.append({"kind": "pot-cap-step", "case": caps[idx]})
+            elif nm == "Cases_et0consts":
+                corr.mismatches.append({"kind": "go-constant-expressions", "observed": consts})
+            elif nm.startswith("Cases_et0_"):
+                ci = et0[idx]["in"]
+                corr.mismatches.append({"kind": "potential-et-formula", "case": idx, "tag": ci["tag"], "method": ci["meth"],
+                                        "crop": ci["crop"],
+                                        "differs": [ET0_GROUPS[j] for j in range(len(ET0_GROUPS)) if mask >> j & 1],
+                                        "input": ci, "observed": et0[idx]["out"]})
             else:
                 ci = cases[idx]["in"]
                 corr.mismatches.append({"kind": "evatra-structure", "case": idx, "tag": ci["tag"], "method": ci["meth"],
                                         "differs": [GROUPS[j] for j in range(len(GROUPS)) if mask >> j & 1],
                                         "input": ci, "observed": cases[idx]["out"]})
-    corr.cases += len(recs) + len(caps)
+    corr.cases += len(recs) + len(caps) + len(erecs)
     return corr
 
 
+# ETpot=1 (Haude) needs the 14 h saturation deficit column (only 109_121_haude_tmax.csv has one) and ETpot=5 needs a
+# reference-ET column, which only the one-file-per-year layout of project MUN can carry: with the other weather files
+# both methods run with a potential ET of 0 on every day (no error is reported)
+HAUDE_LINE = ("project=ex1 WeatherFolder=historical soilId=%s fcode=109_121_haude_tmax plotNr=%d Altitude=46 Latitude=52.6431 "
+              "poligonID=30169 ETpot=1", "EN")
+MUN_LINE = ("project=MUN WeatherFolder=MUN soilId=001 fcode=NEU plotNr=00001 Altitude=55 Latitude=54.00 poligonID=MUN "
+            "parameter=./parameter StartYear=2009 ETpot=%d", "DE")
+
+
 def _lines(ctx):
-    """traced batch lines: the shipped examples with every ET method"""
-    nl, endy = (15, 1995) if ctx.thorough else (5, 1985)
+    """traced batch lines: the shipped examples under every ET method"""
+    endy = 1995 if ctx.thorough else 1985
+    plan = [(HAUDE_LINE[0] % ("075", 10001), "EN", None, endy)]
+    for i, m in ((1, 2), (2, 3), (7, 4)):
+        ln, fmt = waterlib.TRACE_LINES[i]
+        plan.append((ln, fmt, m, endy))
+    plan.append((MUN_LINE[0] % 5, "DE", None, 2018 if ctx.thorough else 2013))
+    if ctx.thorough:
+        for i, (ln, fmt) in enumerate(waterlib.TRACE_LINES):
+            plan.append((ln, fmt, 2 + (i % 3), endy))
+        plan.append((HAUDE_LINE[0] % ("160", 10002), "EN", None, endy))
+        for m in (2, 3, 4):      # real weather without global radiation: sunshine hours
+            plan.append((MUN_LINE[0] % m, "DE", None, 2018))
     out = []
-    for i in range(nl):
-        ln, fmt = waterlib.TRACE_LINES[i % len(waterlib.TRACE_LINES)]
-        ln = " ".join(t for t in ln.split() if not t.startswith("ETpot="))
-        end = ("1231%d" if fmt == "EN" else "3112%d") % endy
-        out.append("%s ETpot=%d EndDate=%s resultfolder=R/c08_%d" % (ln, 1 + (i + i // 5) % 5, end, i))
+    for i, (ln, fmt, m, ey) in enumerate(plan):
+        if m is not None:
+            ln = " ".join(t for t in ln.split() if not t.startswith("ETpot=")) + " ETpot=%d" % m
+        end = ("1231%d" if fmt == "EN" else "3112%d") % ey
+        out.append("%s EndDate=%s resultfolder=R/c08_%d" % (ln, end, i))
     return out
 
 
@@ -168,15 +239,37 @@ def correspond(ctx):
     if rc != 0:
         c.mismatches.append({"kind": "harness-crash", "stderr": err[-1500:]})
         return c
-    for ln in other:
-        c.mismatches.append({"kind": "harness-note", "what": ln[:300]})
+    for ln in other[:10]:
+        c.mismatches.append({"kind": "harness-note", "what": ln[:300], "of": len(other)})
     runs = [x for x in rows if x["k"] == "c08run"]
     for r_ in runs:
         if not r_["success"]:
             c.mismatches.append({"kind": "traced-run-failed", "run": r_})
     cases = [x for x in rows if x["k"] == "evatra"]
     caps = [x for x in rows if x["k"] == "cap"]
-    eval_cases(ctx, c, cases, caps)
+    et0 = [x for x in rows if x["k"] == "et0"]
+    consts = [x for x in rows if x["k"] == "et0consts"]
+    if not consts:
+        c.mismatches.append({"kind": "harness-note", "what": "no et0consts row"})
+    eval_cases(ctx, c, cases, caps, et0, consts[0]["c"] if consts else None)
+    for cs in et0:
+        i = cs["in"]
+        c.bump("et0 %s method=%d %s" % (i["tag"], i["meth"], "crop" if i["crop"] else "bare"))
+        f = float.fromhex
+        if i["meth"] in (2, 3, 4) and f(i["rad"]) == 0:
+            c.bump("et0 radiation from sunshine hours")
+        if f(i["temp"]) < 0:
+            c.bump("et0 frost")
+        if i["meth"] == 3 and f(i["wind"]) < 0.5:
+            c.bump("et0 wind below the 0.5 floor")
+        if i["meth"] == 3 and f(i["rh"]) >= 100:
+            c.bump("et0 saturation deficit 0")
+        if f(cs["out"]["precap"]) < 0:
+            c.bump("et0 negative before the floor")
+        if f(cs["out"]["precap"]) > (0.65 if i["crop"] else 0.6):
+            c.bump("et0 above the cap")
+    ctx.extra["et0_cases"] = len(et0)
+    ctx.extra["oracle_table_entries"] = sum(len(x["tab"]) for x in et0)
     seen = set()
     for cs in cases:
         i = cs["in"]
